@@ -25,6 +25,7 @@ import (
 	"strings"
 
 	"shanhu.io/g/caco3"
+	"shanhu.io/g/lexing"
 	"verif/harness/hx"
 )
 
@@ -170,22 +171,23 @@ func (c *ctx) materialise(tree []string) (string, bool) {
 		return "", false
 	}
 	os.WriteFile(filepath.Join(c.treeDir, "outside.txt"), []byte("outside"), 0o644)
+	os.WriteFile(filepath.Join(c.root(), "secret.txt"), []byte("just outside the source root"), 0o644)
 	for _, f := range tree {
 		if !plainPath(f) || f == "" {
-			c.treeKey = ""
+			c.treeKey = "\x01invalid"
 			return "", false
 		}
 		fp := filepath.Join(src, filepath.FromSlash(f))
 		if err := os.MkdirAll(filepath.Dir(fp), 0o755); err != nil {
-			c.treeKey = ""
+			c.treeKey = "\x01invalid"
 			return "", false
 		}
 		if st, err := os.Lstat(fp); err == nil && st.IsDir() {
-			c.treeKey = ""
+			c.treeKey = "\x01invalid"
 			return "", false
 		}
 		if err := os.WriteFile(fp, []byte("x:"+f), 0o644); err != nil {
-			c.treeKey = ""
+			c.treeKey = "\x01invalid"
 			return "", false
 		}
 	}
@@ -196,7 +198,7 @@ func (c *ctx) dropTree() {
 	if c.treeDir != "" {
 		os.RemoveAll(c.treeDir)
 	}
-	c.treeDir, c.treeKey = "", ""
+	c.treeDir, c.treeKey = "", "\x01invalid"
 }
 
 func relList(src string, ms []string) ([]string, bool) {
@@ -440,7 +442,11 @@ func (c *ctx) judgeFset(o *fsetOp) (out, key, desc string) {
 		return "bad-tree", "", ""
 	}
 	r := &caco3.FileSet{Name: o.name, Files: o.files, Select: o.sel, Ignore: o.ign, Include: o.inc}
-	v, err := caco3.VerifNewFileSet(root, o.p, r)
+	v, err, pmsg := safeNewFileSet(root, o.p, r)
+	if pmsg != "" {
+		return "panic", "newfileset-panic", fmt.Sprintf(
+			"newFileSet panicked (%s) for a file_set in package %q with Files %q Select %q Ignore %q", pmsg, o.p, o.files, o.sel, o.ign)
+	}
 	if err != nil {
 		return "err", "", ""
 	}
@@ -518,11 +524,22 @@ func (c *ctx) judgeFset(o *fsetOp) (out, key, desc string) {
 	return out, "", ""
 }
 
+// safeNewFileSet: a panic inside newFileSet is an observation, not the end of the check
+func safeNewFileSet(root, p string, r *caco3.FileSet) (v *caco3.VerifFileSet, err error, pmsg string) {
+	defer func() {
+		if x := recover(); x != nil {
+			pmsg = fmt.Sprint(x)
+		}
+	}()
+	v, err = caco3.VerifNewFileSet(root, p, r)
+	return
+}
+
 // listedWithoutIgnores: the same rule without its Ignore list does list w
 // (so the ignores, not the selection, dropped it)
 func (c *ctx) listedWithoutIgnores(root string, o *fsetOp, w string) bool {
-	v, err := caco3.VerifNewFileSet(root, o.p, &caco3.FileSet{Name: o.name, Files: o.files, Select: o.sel})
-	if err != nil {
+	v, err, pmsg := safeNewFileSet(root, o.p, &caco3.FileSet{Name: o.name, Files: o.files, Select: o.sel})
+	if err != nil || pmsg != "" {
 		return false
 	}
 	for _, f := range v.Files {
@@ -561,9 +578,9 @@ func (c *ctx) judgeBuild(o *fsetOp) (out, key, desc string) {
 	if !jsonxSafe(all...) || len(o.inc) > 0 || !plainPath(o.p) {
 		return "bad-op", "", ""
 	}
-	c.treeKey = "" // always a fresh workspace: builds write into it
+	c.treeKey = "\x01invalid" // always a fresh workspace: builds write into it
 	root, ok := c.materialise(o.tree)
-	c.treeKey = ""
+	c.treeKey = "\x01invalid"
 	if !ok {
 		return "bad-tree", "", ""
 	}
@@ -598,7 +615,19 @@ func (c *ctx) judgeBuild(o *fsetOp) (out, key, desc string) {
 	if _, errs := builder.ReadWorkspace(); errs != nil {
 		return "err-workspace", "", ""
 	}
-	errs := builder.Build([]string{target})
+	var pmsg string
+	errs := func() (es []*lexing.Error) {
+		defer func() {
+			if x := recover(); x != nil {
+				pmsg = fmt.Sprint(x)
+			}
+		}()
+		return builder.Build([]string{target})
+	}()
+	if pmsg != "" {
+		c.j.Clear()
+		return "panic", "build-panic", fmt.Sprintf("building file_set %q in package %q panicked: %s", o.name, o.p, pmsg)
+	}
 	c.j.Clear()
 	after := snapshot(c.treeDir)
 	if ch := changedOutside(before, after, "ws/out"); len(ch) > 0 {
@@ -1086,6 +1115,92 @@ func (g *gen) treeOps(thorough bool, nbuild int) {
 	}
 }
 
+// ignore lists of 3-5 patterns with malformed ones at every position, over trees
+// in which files are matched by exactly one of the later patterns: a malformed
+// pattern is skipped, the patterns after it still apply, for every file
+func (g *gen) malformedIgnores(thorough bool) {
+	const p = "p"
+	good := []string{"foo", "*.txt", "a.txt", "foo*", "foobar/x", "sub/*", "foo/b*", "z*"}
+	bad := []string{"[", "[a", "\\"}
+	trees := [][]string{
+		{"p/a.txt", "p/foo", "p/foo.txt", "p/foobar/x", "p/sub/tags"},
+		{"p/foo.txt", "p/foo/b.txt", "p/foo/bar", "p/foobar/x", "p/a.txt"},
+		{"p/foo", "p/z1"},
+		{"p/a.txt"},
+	}
+	sels := []string{"*", "**", "*/*"}
+	emit := func(ign []string) {
+		for _, t := range trees {
+			for _, s := range sels {
+				g.fsetOp("fset", p, t, "s", nil, []string{s}, ign, nil)
+				g.rep.Count("fset:malformed-ignore-lists")
+			}
+		}
+	}
+	// length 3: one malformed pattern at every position x every ordered pair of good ones
+	for pos := 0; pos < 3; pos++ {
+		for _, b := range bad {
+			for i, a := range good[:6] {
+				for j, c := range good[:6] {
+					if i == j {
+						continue
+					}
+					l := []string{a, c}
+					l = append(l[:pos], append([]string{b}, l[pos:]...)...)
+					emit(append([]string{}, l...))
+				}
+			}
+		}
+	}
+	// length 4-5: one or two malformed patterns at random positions
+	n := 150
+	if thorough {
+		n = 3000
+	}
+	for k := 0; k < n; k++ {
+		ln := 4 + g.r.Intn(2)
+		l := make([]string, ln)
+		for i := range l {
+			l[i] = hx.Pick(g.r, good)
+		}
+		l[g.r.Intn(ln)] = hx.Pick(g.r, bad)
+		if g.r.Intn(3) == 0 {
+			l[g.r.Intn(ln)] = hx.Pick(g.r, bad)
+		}
+		emit(l)
+	}
+}
+
+// selects that climb with leading ".." segments (and "x/../.."), from packages
+// at depth 1-3, with sibling packages, a file at the source root and a file just
+// outside the source root in the fixture: a select never leaves its package
+func (g *gen) climbingSelects() {
+	tree := []string{"p/a.go", "p/q/b.go", "p/q/r/c.go", "p/qq/e.go", "pp/d.go", "top.go", "p/secret.txt"}
+	tails := []string{"*", "*.go", "*/*.go", "pp/*.go", "qq/*", "q/*.go", "secret.txt", "src/top.go", "**", "p/**"}
+	for _, pk := range []string{"p", "p/q", "p/q/r"} {
+		for k := 1; k <= 4; k++ {
+			up := strings.Repeat("../", k)
+			for _, t := range tails {
+				for _, sel := range []string{up + t, "x/../" + up + t, "./" + up + t, "/" + up + t} {
+					g.fsetOp("fset", pk, tree, "s", nil, []string{sel}, nil, nil)
+					g.fsetOp("fset", pk, tree, "s", []string{"a.go"}, []string{sel, "*"}, []string{"../*"}, nil)
+					g.rep.Count("fset:climbing-select")
+				}
+			}
+		}
+		for _, sel := range []string{"..", "x/../..", "../..", "x/../../*", "q/../../*.go", "../../../secret.txt", "../../../../outside.txt"} {
+			g.fsetOp("fset", pk, tree, "s", nil, []string{sel}, nil, nil)
+			g.rep.Count("fset:climbing-select")
+		}
+	}
+	for _, sel := range []string{"../pp/*.go", "../../secret.txt", "../top.go", "../*"} {
+		t := append(append([]string{}, tree...), "p/BUILD.caco3")
+		sort.Strings(t)
+		g.fsetOp("build", "p", t, "zzset", nil, []string{sel, "*.go"}, nil, nil)
+		g.rep.Count("build:climbing-select")
+	}
+}
+
 func main() {
 	log.SetOutput(io.Discard)
 	f := hx.ParseFlags()
@@ -1133,11 +1248,15 @@ func main() {
 			g.randomPathOps(20000)
 			g.matchOps(4, 100000)
 			g.treeOps(true, 1200)
+			g.malformedIgnores(true)
+			g.climbingSelects()
 		} else {
 			g.pathOps(4, false)
 			g.randomPathOps(2000)
 			g.matchOps(3, 8000)
 			g.treeOps(false, 120)
+			g.malformedIgnores(false)
+			g.climbingSelects()
 		}
 		rep.Exhaustive = true
 		ops = g.ops
